@@ -66,7 +66,7 @@ fn gen_word(rng: &mut Rng, size: Option<usize>) -> G {
     match size {
         None => {
             let u = USES[rng.below(8) as usize];
-            let w = if u.size().is_some() { u.size() } else if rng.below(5) == 0 { None } else { Some([8, 32, 64, 128, 256][rng.below(5) as usize]) };
+            let w = if u.size().is_some() { u.size() } else if rng.below(5) == 0 { None } else { Some([8, 32, 64, 128, 256, 1, 4, 7, 250, 255][rng.below(10) as usize]) };
             G::Word(w, u)
         }
         Some(z) => {
